@@ -124,6 +124,8 @@ def check(ctx):
                 kinds["benign-forwarder"] += 1
                 continue
             key = (f.key, name)
+            if f.closure_of and (f.closure_of, name) in P.INVARIANT:
+                key = (f.closure_of, name)      # the same site, written inside a closure of the function the table names
             if name in (VEC_REMOVE, INDEX, SPLIT_OFF):
                 vl = vl or VecLen(f)
                 pv = pv or Prov(f)
@@ -208,6 +210,51 @@ def check(ctx):
                    where=f.where(header), detail=why, sample={"fn": f.key, "iterator": why.get("iter")})
     ctx.floor("R-4", "decode loops", nloops, 7)
 
+    # ---- R-5 work per iteration -----------------------------------------------------------------------------
+    # "time proportional to the input": inside a loop of decode-reachable code no std operation that is linear in the
+    # length of a collection living ACROSS iterations (the input vector, an accumulator) may run - that is quadratic.
+    # Set / map operations (logarithmic) and scans of something built from the current element are fine.
+    nscan = 0
+    for k in sorted(dreach):
+        f = prog.fns.get(k)
+        if f is None or not f.blocks or k in prog.fully_inlined:
+            continue
+        loops = f.cfg.loops()
+        if not loops:
+            continue
+        pv = Prov(f)
+        vl = None
+        for header, body in loops:
+            for bb in sorted(body):
+                t = f.blocks[bb]["term"]
+                if t["k"] != "call" or f.blocks[bb]["cleanup"]:
+                    continue
+                name = callee_path(t) or ""
+                if not P.LINEAR_SCANS.match(name) or not t["args"]:
+                    continue
+                nscan += 1
+                if name == VEC_REMOVE:
+                    vl = vl or VecLen(f)
+                    if bb in vl.drains:
+                        continue            # removing the LAST element (reverse tail drain): constant time
+                recv = pv.operand_term(t["args"][0], bb, "term")
+                # the vectors / slices being scanned: the receiver itself or what its view (deref, iter, as_slice ..) is a view of
+                roots = _scanned_vectors(f, pv, t["args"][0], bb)
+                if pv._defs is None:
+                    pv._collect_defs()
+                stale = []
+                for l in roots:
+                    defs = [d for d in pv._defs if d[0] == l]
+                    if not (defs and all(d[1] in body for d in defs)):
+                        stale.append(f.local_name(l) or "_%d" % l)
+                if not roots:
+                    continue        # not a scan of a vector of this function (e.g. the characters of one text value)
+                ctx.ob("R-5", "per-iteration-scan:%s:%s" % (f.key, name.split("::")[-1]), not stale,
+                       "%s inside a decode loop of %s scans only a vector built in the same iteration (scanning one that lives "
+                       "across iterations - the input, an accumulator - makes decoding quadratic)" % (name.split("::")[-1], f.key),
+                       where=f.where(bb), detail={"scanned": stale, "receiver": show(recv)[:100]})
+    ctx.count("linear_scans_in_decode_loops", nscan)
+
 
 def _self_field(t):
     """name of the field of `self` (or of the value a builder wraps) a term reads, else None"""
@@ -252,6 +299,38 @@ def _doc_mentions(g, subj):
     if subj[0] == "field":
         return subj[1].lower() in _panics_section(g)
     return True
+
+
+def _scanned_vectors(f, pv, op, bb, depth=0):
+    """Vec / slice locals of f that an operand (a reference, a slice view, an iterator) gives access to"""
+    out = set()
+    if depth > 4 or op["k"] not in ("copy", "move"):
+        return out
+    lv = pv._borrowed_lvalue(op, bb)
+    if lv[0] == "local":
+        ty = f.local_ty(lv[1])
+        if ty.startswith("alloc::vec::Vec<") or ty.startswith("[") or ty.startswith("&["):
+            out.add(lv[1])
+            return out
+    if op["place"]["p"]:
+        return out
+    for di in pv.reaching(op["place"]["l"], bb, "term"):
+        if di == -1:
+            continue
+        _, dbb, didx, payload = pv._defs[di]
+        if didx == "term":
+            name = callee_path(payload) or ""
+            if name.endswith(("::deref", "::deref_mut", "::iter", "::iter_mut", "::into_iter", "::as_slice", "::as_ref", "::borrow",
+                              "::rev", "::map", "::by_ref", "::enumerate", "::skip", "::cloned", "::copied")) and payload["args"]:
+                out |= _scanned_vectors(f, pv, payload["args"][0], dbb, depth + 1)
+        elif payload["k"] == "use" and payload["op"]["k"] in ("copy", "move"):
+            out |= _scanned_vectors(f, pv, payload["op"], dbb, depth + 1)
+        elif payload["k"] == "ref":
+            pl = payload["place"]
+            if len(pl["p"]) == 1 and pl["p"][0][0] == "deref":
+                pl = {"l": pl["l"], "p": []}       # `&*r`: whatever r gives access to
+            out |= _scanned_vectors(f, pv, {"k": "copy", "place": pl}, dbb, depth + 1)
+    return out
 
 
 def _raw_pointers_come_from_boxes(f, pv):
